@@ -166,7 +166,16 @@ pub fn run_lzma2w(rep: &mut Report, rng: &mut Rng, n: u64, big: bool, check: boo
         let one = lzma2_compress(&data, &lz, chunk, &[data.len()], 0);
         match &one {
             Outcome::Ok(c) => {
-                rep.model(request(&lz, chunk, &inp), format!("ok {} {}", c.len(), fnv(c)));
+                // every fourth request also evaluates the hypotheses of `lzma2_fast_roundtrip_partial` on the model's
+                // output (`checkChunks` of the framed events denotes the input, `encodeChunks` gives the same bytes);
+                // a preset dictionary longer than a dictionary size that is no multiple of 16 is excluded there (the
+                // reader keeps up to 15 bytes more of it than the writer, see the report)
+                let long_preset = lz.preset.as_ref().map(|p| p.len() > lz.dict as usize && lz.dict % 16 != 0).unwrap_or(false);
+                if i % 4 == 0 && data.len() <= 400_000 && !long_preset {
+                    rep.model(format!("{} check=1", request(&lz, chunk, &inp)), format!("ok {} {} check=1", c.len(), fnv(c)));
+                } else {
+                    rep.model(request(&lz, chunk, &inp), format!("ok {} {}", c.len(), fnv(c)));
+                }
                 // the property itself
                 match lzma2_decompress(c, lz.dict, lz.preset.as_deref(), &[65536], data.len() + 16) {
                     Outcome::Ok((out, used)) => {
